@@ -188,6 +188,28 @@ def cases(tier, seed):
             back = list(rng.choice(_back_edges(n)))
         yield {"n": n, "mask": mask, "kinds": kinds, "back": back, "variants": "sample",
                "vseed": rng.randrange(2 ** 31)}
+    # ---- towers of non-task list nodes over tasks and shared data roots (n = 4..8) ---------
+    # (the leaf stripping and the data-root stripping of order() interleave only when list nodes are nested at
+    #  least three deep over a shared literal, which needs >= 6 nodes and is rare in the uniform sample above)
+    k = 1500 if not thorough else 40000
+    for _ in range(k):
+        nt, nd, nl = rng.choice((1, 1, 2)), rng.choice((1, 1, 2)), rng.choice((2, 3, 3, 4))
+        n = nt + nd + nl
+        kinds = "".join(rng.choice("TTS") for _ in range(nt)) + "".join(rng.choice("NND") for _ in range(nd)) \
+            + "".join(rng.choice("NNL") for _ in range(nl))
+        mask = 0
+        for i in range(nt + nd, n):
+            chosen = {j for j in range(i) if rng.random() < 0.55}
+            if i > nt + nd and rng.random() < 0.8:
+                chosen.add(i - 1)
+            while len(chosen) < 2:
+                chosen.add(rng.randrange(i))
+            for j in chosen:
+                mask |= 1 << (i * (i - 1) // 2 + j)
+        if nt == 2 and rng.random() < 0.5:
+            mask |= 1 << (1 * 0 // 2 + 0)          # second task depends on the first
+        yield {"n": n, "mask": mask, "kinds": kinds, "back": None, "variants": "sample", "tower": True,
+               "vseed": rng.randrange(2 ** 31)}
     # ---- random larger structured graphs -------------------------------------------
     k = 500 if not thorough else 12000
     for _ in range(k):
@@ -488,6 +510,19 @@ def _striplists(deps, kinds):
     return out
 
 
+def _data_root_only_under_striplists(deps, kinds, strip):
+    """Input feature: some dependency-free non-task node (legacy literal / DataNode) has >= 2 dependents and all of
+    them are list leaves in the sense of _striplists."""
+    n = len(deps)
+    for r in range(n):
+        if deps[r] or kinds[r] not in "ND":
+            continue
+        dependents = {i for i in range(n) if r in deps[i]}
+        if len(dependents) >= 2 and dependents <= strip:
+            return True
+    return False
+
+
 _CODES = None
 
 
@@ -523,7 +558,8 @@ def _call_and_check(ctx, dsk, keys, depkeys, cyclic, feat, strip_keys, info, sta
 
     n = len(keys)
     e = sum(len(v) for v in depkeys.values())
-    bound = 200000 + 3000 * (n + e) + 40 * (n + e) ** 2
+    # measured: order() executes <= 165 lines per (key + edge), linearly, up to 200 keys; the bound is > 20x that
+    bound = 20000 + 4000 * (n + e) + 2 * (n + e) ** 2
     ctx.count("order_calls")
     if stats:
         ctx.count("return_stats_calls")
@@ -558,7 +594,7 @@ def _call_and_check(ctx, dsk, keys, depkeys, cyclic, feat, strip_keys, info, sta
 def _feat_for(feat, who, strip_keys):
     # two input predicates can hold at once; a symptom located at a list leaf of a graph with >= 2 list leaves
     # belongs to the list-leaf mechanism
-    if feat == COINCIDE and who.endswith("striplist") and len(strip_keys) >= 2:
+    if who.endswith("striplist") and len(strip_keys) >= 2:
         return "striplists>=2"
     return feat
 
@@ -645,6 +681,11 @@ def run_case(case, ctx):
         ctx.distinct("shapes", (n, case["mask"]))
     ctx.count("cyclic_programs" if cyclic else "acyclic_programs")
     sfeat = "striplists>=2" if len(strip) >= 2 else ("striplists==1" if len(strip) == 1 else "striplists==0")
+    if _data_root_only_under_striplists(deps, kinds, strip):
+        sfeat += "+data-root-only-under-striplists"
+        ctx.count("data_root_only_under_striplists_programs")
+    if case.get("tower"):
+        ctx.count("tower_programs")
     for ch in set(kinds):
         ctx.op("kind:" + ch)
     extmask = random.Random(case.get("vseed", 0)).getrandbits(60)
